@@ -284,3 +284,81 @@ Theorem C09c_zdot_nd_incr_shape_gap :
   end.
 Proof. exact zdot_nd_incr_shape_gap. Qed.
 Print Assumptions C09c_zdot_nd_incr_shape_gap.
+
+(* ---- (7) WithReuse AND WithIncr together ---- *)
+(* MODEL: DotN.zdot_nd_full σ ta tb (Some rr) (Some i); SPEC: DotN.zdot_nd_spec_both (the product is delivered
+   into the reuse tensor, then the SPEC's own unsafe Add step adds the reuse tensor into the increment
+   tensor, which is returned).  Hypotheses: those of C09c_zdot_nd_reuse_refines, and the guard / zextra_ok
+   of the Add step in the store the reuse part returns.  NO shape condition between the increment tensor
+   and the product (no dot_nd_extra_incr): the SPEC here is an Add step, which refuses unequal shapes
+   as the MODEL's Add does (C09c_zdot_nd_both_shape_example) *)
+Theorem C09c_zdot_nd_both_refines :
+  forall (σ : store Z) (ς : sstate Z) (ta tb rr i : nat) (o : zop) (σ' : store Z) (out : outcome Z),
+  R Z 0 σ ς -> RM Z σ ->
+  dot_nd_op σ ta tb = Some o -> zguard σ o = GOk -> zextra3 σ o = true ->
+  dot_nd_reuse_plain σ rr (dot_nd_size σ ta tb) = true ->
+  dot_nd_extra_reuse σ ta tb rr = true ->
+  (forall xr, sget Z ς rr = Some xr -> s_cm xr = false) ->
+  (forall σ1, zdot_nd σ ta tb (Some rr) = (σ1, RNew Z rr) ->
+     zguard σ1 (ZBin 0 i rr MUnsafe true) = GOk /\ zextra_ok σ1 (ZBin 0 i rr MUnsafe true) = true) ->
+  zdot_nd_full σ ta tb (Some rr) (Some i) = (σ', out) ->
+  exists ς', zdot_nd_spec_both ς ta tb rr i = Some (ς', out) /\ R Z 0 σ' ς' /\ RM Z σ'.
+Proof. exact zdot_nd_both_refines. Qed.
+Print Assumptions C09c_zdot_nd_both_refines.
+
+(* the only tensor a successful reuse part returns is the reuse tensor itself (so the Add step of
+   zdot_nd_full is the step ZBin 0 i rr MUnsafe true of the hypothesis above) *)
+Theorem C09c_zdot_nd_reuse_out : forall (σ : store Z) (ta tb rr : nat) (σ1 : store Z) (p : nat),
+  zdot_nd σ ta tb (Some rr) = (σ1, RNew Z p) -> p = rr.
+Proof. exact zdot_nd_reuse_out. Qed.
+Print Assumptions C09c_zdot_nd_reuse_out.
+
+(* non-vacuity (dotn_σb / dotn_ςb: a, b as above, a (2,3) tensor of zeros as reuse tensor, a (2,3) tensor
+   holding 100..600 as increment tensor): the reuse tensor ends as the product, the increment tensor as
+   100..600 plus the product, and is returned; nothing is left over *)
+Example C09c_zdot_nd_both_example :
+  R Z 0 dotn_σb dotn_ςb /\ RM Z dotn_σb /\
+  dot_nd_op dotn_σb 0 1 = Some (ZTensorMul 0 1 [2] [0] 0) /\
+  zguard dotn_σb (ZTensorMul 0 1 [2] [0] 0) = GOk /\ zextra3 dotn_σb (ZTensorMul 0 1 [2] [0] 0) = true /\
+  dot_nd_size dotn_σb 0 1 = 6 /\
+  dot_nd_reuse_plain dotn_σb 2 (dot_nd_size dotn_σb 0 1) = true /\ dot_nd_extra_reuse dotn_σb 0 1 2 = true /\
+  (forall xr, sget Z dotn_ςb 2 = Some xr -> s_cm xr = false) /\
+  (forall σ1, zdot_nd dotn_σb 0 1 (Some 2%nat) = (σ1, RNew Z 2) ->
+     zguard σ1 (ZBin 0 3 2 MUnsafe true) = GOk /\ zextra_ok σ1 (ZBin 0 3 2 MUnsafe true) = true) /\
+  (let '(σ', r) := zdot_nd_full dotn_σb 0 1 (Some 2%nat) (Some 3%nat) in
+   r = RNew Z 3 /\ length (tens Z σ') = 4%nat /\
+   option_map (fun d => shp (d_ap d)) (get_t Z σ' 2) = Some [2; 3] /\
+   map (logical Z σ') [0; 1; 2; 3]%nat
+   = [map Ok dotn_A24; map Ok [2; 3; 4; 5]; map Ok [40; 96; 152; 208; 264; 320];
+      map Ok [140; 296; 452; 608; 764; 920]]) /\
+  match zdot_nd_spec_both dotn_ςb 0 1 2 3 with
+  | Some (ς', r) =>
+    r = RNew Z 3 /\
+    map (obs_spec Z 0 ς') [0; 1; 2; 3]%nat
+    = [([2; 3; 4], dotn_A24); ([4], [2; 3; 4; 5]); ([2; 3], [40; 96; 152; 208; 264; 320]);
+       ([2; 3], [140; 296; 452; 608; 764; 920])]
+  | None => False
+  end.
+Proof. exact zdot_nd_both_example. Qed.
+Print Assumptions C09c_zdot_nd_both_example.
+
+(* why no shape condition is needed (dotn_σbs / dotn_ςbs: the increment tensor has the shape (3,2)): the Add
+   step is inside its guards and is refused with an error on BOTH sides; the reuse tensor holds the product,
+   the increment tensor is unchanged *)
+Example C09c_zdot_nd_both_shape_example :
+  R Z 0 dotn_σbs dotn_ςbs /\ RM Z dotn_σbs /\
+  (let σ1 := fst (zdot_nd dotn_σbs 0 1 (Some 2%nat)) in
+   snd (zdot_nd dotn_σbs 0 1 (Some 2%nat)) = RNew Z 2 /\
+   zguard σ1 (ZBin 0 3 2 MUnsafe true) = GOk /\ zextra_ok σ1 (ZBin 0 3 2 MUnsafe true) = true) /\
+  (let '(σ', r) := zdot_nd_full dotn_σbs 0 1 (Some 2%nat) (Some 3%nat) in
+   r = RErr Z /\
+   map (logical Z σ') [2; 3]%nat = [map Ok [40; 96; 152; 208; 264; 320]; map Ok [100; 200; 300; 400; 500; 600]]) /\
+  match zdot_nd_spec_both dotn_ςbs 0 1 2 3 with
+  | Some (ς', r) =>
+    r = RErr Z /\
+    map (obs_spec Z 0 ς') [2; 3]%nat
+    = [([2; 3], [40; 96; 152; 208; 264; 320]); ([3; 2], [100; 200; 300; 400; 500; 600])]
+  | None => False
+  end.
+Proof. exact zdot_nd_both_shape_example. Qed.
+Print Assumptions C09c_zdot_nd_both_shape_example.
